@@ -165,6 +165,16 @@ add("C15",
     "affected by an earlier norm.",
     "lengths keep a decade from the 1e-8 threshold; numpy.linalg.norm as length reference.")
 
+add("C16",
+    "Hypothesis-generated 3-d fields; VTK's own FindCell (on the in-memory grid and on the file read by VTK's own "
+    "reader) as independent consumer; round trip; legacy files from an independent writer",
+    "Generated-input search over nvdim x labels x anisotropic meshes x masks x subregions x dtype x {bin, bin8, txt, "
+    "xml}: for probe points of every kind the VTK cell located by FindCell must carry, in every array (field, each "
+    "component, norm, valid), the value of the mesh cell an exact lattice model places there; grid coordinates = mesh "
+    "vertices; Field.from_file round trip (exact for bin/xml, 1e-9 for txt) incl. labels and side-car subregions; "
+    "old-style point-data files must load with one value per cell in the right cell.",
+    "VTK library as the independent reader/locator; component 0 holds a unique value per cell so a misplaced cell shows.")
+
 PENDING = {}
 
 
